@@ -540,6 +540,99 @@ pub fn gen(g: &mut Gen) {
     gen_large_cases(g);
     gen_float_cases(g);
     gen_names_cases(g);
+    gen_chain_cases(g);
+}
+
+// ---- "transformation then consumer": after a history of in-place transformations every
+// consumer that reads the data in storage order must see the logical row-major content
+
+const CONSUMERS: [&str; 16] = [
+    "zipl", "zipli", "zipr", "zipri", "map", "mapi", "matrix", "iter", "add", "add_r", "add_v",
+    "add_vr", "display", "eq", "first", "reshape",
+];
+
+fn gen_chain_cases(g: &mut Gen) {
+    let mut shapes: Vec<Vec<usize>> = shapes_up_to(3, 8);
+    for n in 1..=5usize {
+        shapes.push(vec![n, n]);
+    }
+    shapes.extend([vec![2, 2, 2], vec![3, 3, 3], vec![2, 3, 2], vec![7, 7], vec![2, 2, 2, 2]]);
+    for lens in shapes {
+        let d = lens.len();
+        let shape = named(g, &lens);
+        let names: Vec<&'static str> = shape.iter().map(|s| s.0).collect();
+        let n: usize = lens.iter().product();
+        let start = g.rng.below(40);
+        g.op(format!("@ t {} i{}x{}", show_shape(&shape), start, n));
+        let square2 = d == 2 && lens[0] == lens[1];
+        let perms = permutations(d);
+        let order_of = |names: &[&'static str], perm: &[usize]| -> Vec<&'static str> { perm.iter().map(|&p| names[p]).collect() };
+        let mut fresh: Vec<&str> = FRESH_POOL.to_vec();
+        g.rng.shuffle(&mut fresh);
+        let fresh: Vec<&'static str> = fresh[..d].iter().map(|n| intern(n)).collect();
+        // same-D reshape target with other lengths (if any) under fresh names
+        let mut alts: Vec<Vec<usize>> = factorizations(n, d).into_iter().filter(|f| f.len() == d).collect();
+        g.rng.shuffle(&mut alts);
+        let alt = alts.first().cloned().unwrap_or(lens.clone());
+        let alt_shape: Vec<(&'static str, usize)> = fresh.iter().zip(alt.iter()).map(|(n, l)| (*n, *l)).collect();
+        let mut histories: Vec<String> = vec!["-".into(), "map".into(), "mapi".into()];
+        for perm in &perms {
+            let o = show_names(&order_of(&names, perm));
+            histories.push(format!("reorder:{}", o));
+            histories.push(format!("transpose:{}", o));
+        }
+        histories.push(format!("reshape:{}", show_shape(&alt_shape)));
+        histories.push(format!("rename:{}", show_names(&fresh)));
+        // chained twice
+        for _ in 0..4 {
+            let p1 = g.rng.pick(&perms).clone();
+            let p2 = g.rng.pick(&perms).clone();
+            let o1 = order_of(&names, &p1);
+            // names after a reorder are o1; after a transpose they stay `names`
+            histories.push(format!("reorder:{}/reorder:{}", show_names(&o1), show_names(&order_of(&o1, &p2))));
+            histories.push(format!("reorder:{}/transpose:{}", show_names(&o1), show_names(&order_of(&o1, &p2))));
+            histories.push(format!("transpose:{}/reorder:{}", show_names(&o1), show_names(&order_of(&names, &p2))));
+            histories.push(format!("transpose:{}/transpose:{}", show_names(&o1), show_names(&order_of(&names, &p2))));
+            histories.push(format!("reorder:{}/mapi", show_names(&o1)));
+            histories.push(format!("transpose:{}/map/rename:{}", show_names(&o1), show_names(&fresh)));
+            histories.push(format!("rename:{}/reorder:{}", show_names(&fresh), show_names(&order_of(&fresh, &p1))));
+            histories.push(format!("reorder:{}/reshape:{}", show_names(&o1), show_shape(&alt_shape)));
+            histories.push(format!("reshape:{}/transpose:{}", show_shape(&alt_shape), show_names(&order_of(&fresh, &p2))));
+        }
+        histories.sort();
+        histories.dedup();
+        for h in histories {
+            let in_place_reorder = h.contains("reorder") || h.contains("transpose");
+            let mut cons: Vec<&str> = CONSUMERS.to_vec();
+            if !(square2 && in_place_reorder) {
+                g.rng.shuffle(&mut cons);
+                cons.truncate(5);
+            }
+            for c in cons {
+                let c = if c == "matrix" && d != 2 { "iter" } else { c };
+                let ctok = if c == "reshape" {
+                    let form = *g.rng.pick(&["reshape_owned", "reshape_mut"]);
+                    let mut back: Vec<&str> = NAME_POOL.to_vec();
+                    g.rng.shuffle(&mut back);
+                    if form == "reshape_owned" && g.rng.chance(1, 2) {
+                        format!("reshape_owned:{}:{}", back[0], n)
+                    } else {
+                        let mut l2 = alt.clone();
+                        l2.reverse();
+                        let sh: Vec<(&str, usize)> = back[..d].iter().zip(l2.iter()).map(|(n, l)| (*n, *l)).collect();
+                        format!("{}:{}", form, show_shape(&sh))
+                    }
+                } else {
+                    c.to_string()
+                };
+                g.op(format!("chain {} cons={}", h, ctok));
+                g.count(&format!("chain.consumer.{}", c));
+                if square2 && in_place_reorder {
+                    g.count("chain.after_square_in_place_branch");
+                }
+            }
+        }
+    }
 }
 
 // ---- f64 "degenerate data": NaN, signed zeros, infinities, repeated and all-equal elements
@@ -1274,6 +1367,114 @@ fn fcmp<const D: usize>(t: &Tensor<f64, D>, t2: &Tensor<f64, D>, rel: &str) -> S
     }))
 }
 
+fn apply_step<const D: usize>(m: &mut Tensor<u64, D>, step: &str) {
+    let (op, arg) = match step.split_once(':') {
+        Some((o, a)) => (o, a),
+        None => (step, ""),
+    };
+    match op {
+        "reorder" => m.reorder_mut(names_array::<D>(&parse_names(arg))),
+        "transpose" => m.transpose_mut(names_array::<D>(&parse_names(arg))),
+        "rename" => m.rename(names_array::<D>(&parse_names(arg))),
+        "reshape" => m.reshape_mut(shape_array::<D>(&parse_shape(arg))),
+        "map" => m.map_mut(map_f),
+        "mapi" => m.map_mut_with_index(|i, x| mapi_f(&i, x)),
+        other => panic!("unknown step {}", other),
+    }
+}
+
+/// One consumer of a tensor's content; those that read `data` in storage order are the point.
+fn consume<const D: usize>(x: &Tensor<u64, D>, cons: &str) -> String {
+    let n: usize = x.shape().iter().map(|d| d.1).product();
+    let other: Tensor<u64, D> = Tensor::from(x.shape(), (0..n as u64).map(|i| i + 500).collect());
+    if let Some(arg) = cons.strip_prefix("reshape_owned:") {
+        let sh = parse_shape(arg);
+        return with_d!(sh.len(), D2 => show_dump(&x.clone().reshape_owned(shape_array::<D2>(&sh))));
+    }
+    if let Some(arg) = cons.strip_prefix("reshape_mut:") {
+        let mut c = x.clone();
+        c.reshape_mut(shape_array::<D>(&parse_shape(arg)));
+        return show_dump(&c);
+    }
+    match cons {
+        "zipl" => show_dump(&x.elementwise(&other, zip_f)),
+        "zipli" => show_dump(&x.elementwise_with_index(&other, |i, a, b| zipi_f(&i, a, b))),
+        "zipr" => show_dump(&other.elementwise(x, zip_f)),
+        "zipri" => show_dump(&other.elementwise_with_index(x, |i, a, b| zipi_f(&i, a, b))),
+        "map" => show_dump(&x.map(map_f)),
+        "mapi" => show_dump(&x.map_with_index(|i, a| mapi_f(&i, a))),
+        "matrix" => {
+            let any: &dyn std::any::Any = x;
+            match any.downcast_ref::<Tensor<u64, 2>>() {
+                Some(t2) => {
+                    let m = t2.clone().into_matrix();
+                    let data: Vec<u64> = m.row_major_iter().collect();
+                    format!("rows={} cols={} data={}", m.rows(), m.columns(), show_data(&data))
+                }
+                None => "bad-op".into(),
+            }
+        }
+        "iter" => {
+            let a: Vec<u64> = x.iter().collect();
+            let b: Vec<u64> = x.iter_reference().copied().collect();
+            let c: Vec<u64> = x.clone().iter_owned().collect();
+            if a == b && b == c { format!("data={}", show_data(&a)) } else { "iterators-disagree".into() }
+        }
+        "add" | "add_r" | "add_v" | "add_vr" => {
+            // the operators need a signed element type; `Tensor::map` copies the data in storage
+            // order and keeps shape and strides, so the representation under test is preserved
+            let xi: Tensor<i64, D> = x.map(|v| v as i64);
+            let oi: Tensor<i64, D> = other.map(|v| v as i64);
+            let sum: Tensor<i64, D> = match cons {
+                "add" => &xi + &oi,
+                "add_r" => &oi + &xi,
+                "add_v" => &xi + oi.view(),
+                _ => oi.view() + &xi,
+            };
+            let shape = sum.shape();
+            let lens: Vec<usize> = shape.iter().map(|d| d.1).collect();
+            let data: Vec<u64> = all_indexes(&lens)
+                .iter()
+                .map(|idx| *sum.get_reference(to_array::<usize, D>(idx)).expect("element") as u64)
+                .collect();
+            show_val(&shape, &data)
+        }
+        "display" => format!("{}", x).replace(char::is_whitespace, "_"),
+        "eq" => match dump(x) {
+            Ok((shape, data)) => (*x == Tensor::from(shape_array::<D>(&shape), data)).to_string(),
+            Err(e) => e,
+        },
+        "first" => x.first().to_string(),
+        _ => "bad-op".into(),
+    }
+}
+
+fn chain<const D: usize>(t: &Tensor<u64, D>, steps_s: &str, cons: &str) -> String {
+    outcome(catch(|| {
+        let mut m = t.clone();
+        if steps_s != "-" {
+            for step in steps_s.split('/') {
+                apply_step(&mut m, step);
+            }
+        }
+        // the logical content, read through the checked getter at the harness's own indexes
+        let (shape, data) = match dump(&m) {
+            Ok(v) => v,
+            Err(e) => return e,
+        };
+        let fresh: Tensor<u64, D> = Tensor::from(shape_array::<D>(&shape), data);
+        let after = consume(&m, cons);
+        let reference = consume(&fresh, cons);
+        if after != reference {
+            format!("consumer-differs after-in-place={} fresh={}", after, reference)
+        } else if cons == "display" {
+            "display-ok".to_string()
+        } else {
+            after
+        }
+    }))
+}
+
 enum AnyF {
     None,
     D0(Tensor<f64, 0>), D1(Tensor<f64, 1>), D2(Tensor<f64, 2>), D3(Tensor<f64, 3>),
@@ -1320,6 +1521,7 @@ fn step_d<const D: usize>(t: &Tensor<u64, D>, toks: &[&str]) -> String {
         }
         ["first", rest @ ..] => first(t, &src_arg("src", rest), opt_arg("via", rest).unwrap_or("")),
         ["source", rest @ ..] => source(t, &src_arg("src", rest), opt_arg("via", rest).unwrap_or("source")),
+        ["chain", steps_s, rest @ ..] => chain(t, steps_s, opt_arg("cons", rest).unwrap_or("iter")),
         ["is_square", ..] => easy_ml::tensors::dimensions::is_square(&t.shape()).to_string(),
         [op @ ("eq" | "similar"), shape_s, data_s, rest @ ..] => {
             let shape2 = parse_shape(shape_s);
